@@ -117,7 +117,14 @@ class Multi(Histories):
                     [{'op': 'value', 'chain': ch, 'pick': k} for ch in (2, 3) for k in range(4)] + \
                     [{'op': 'restart'}, {'op': 'multi', 'bases': sb[::-1]}] + \
                     [{'op': 'value', 'chain': ch, 'pick': k} for ch in (0, 1) for k in range(4)]
-        return [c, d, g, n, sh]
+        # a parameter with a default: one config sets it explicitly to None, the other leaves it out - two computations
+        nn = [dict(K(0, 'Src', params=[P('x'), P('y', default=[5])]), name='src'), dict(K(1, 'Dst', meta_inputs=[{'cls': 0}]), name='dst')]
+        nb = [{'name': 'c1', 'data': {'tasks': ['@M.*'], 'x': 1, 'y': None}}, {'name': 'c2', 'data': {'tasks': ['@M.*'], 'x': 1}},
+              {'name': 'c3', 'data': {'tasks': ['@M.*'], 'x': 1, 'y': 5}}]
+        nc = dict(classes=nn, files={}, base=nb[0], context=None)
+        nc['ops'] = [{'op': 'build', 'base': b} for b in nb] + [{'op': 'multi', 'bases': nb}] + \
+                    [{'op': 'value', 'chain': ch, 'pick': k} for ch in (3, 4, 5) for k in (0, 1)]
+        return [c, d, g, n, sh, nc]
 
     def oracle(self, case, obs):
         m = multi_oracle(case, obs)
